@@ -9,6 +9,7 @@ package query
 // (record contents in index order), Nrows / Size. Model-free direct oracle (F lines only).
 
 import (
+	"encoding/binary"
 	"fmt"
 	"slices"
 	"math/rand"
@@ -22,6 +23,9 @@ import (
 	"github.com/apmckinlay/gsuneido/core"
 	"github.com/apmckinlay/gsuneido/db19"
 	"github.com/apmckinlay/gsuneido/db19/index"
+	"github.com/apmckinlay/gsuneido/db19/meta"
+	"github.com/apmckinlay/gsuneido/db19/stor"
+	"github.com/apmckinlay/gsuneido/util/cksum"
 	lib "github.com/apmckinlay/gsuneido/util/zzverif"
 )
 
@@ -192,6 +196,14 @@ var c04corpus = map[string][]string{
 		"create t (a,b) key(a)", "create u (a,b) key(a)", "!insert { a: 1 } into u", "persist",
 		"drop t", "persist", "drop u", "persist", "create t (a) key(a)",
 	},
+	"codec-shapes": { // item codec shapes: derived columns, unique index, empty key, composite best key, long names
+		"create cs (a,b,c,D,E_lower!) key(a) index unique(b) index(c,a)",
+		"create one (x) key()",
+		"create ck2 (a,b,c) key(a,b) index(c) index unique(c,b)",
+		"create a_rather_long_table_name_for_the_two_byte_length_prefix (first_column_name, second_column_name) key(first_column_name)",
+		"!insert { a: 1, b: 2, c: 3 } into cs", "!insert { x: 1 } into one", "persist",
+		"create lin (k,b) key(k) index(b) in cs(b) cascade", "!insert { k: 1, b: 2 } into lin", "persist",
+	},
 	"alter-with-data": {
 		"create t (a,b,c) key(a) index(b)", "!insert { a: 1, b: 2, c: 3 } into t", "!insert { a: 2, b: 2 } into t",
 		"alter t create index(c)", "alter t rename b to bx", "alter t drop index(c)", "ensure t (a,bx,c,d) key(a) index(c,d)",
@@ -235,7 +247,7 @@ func c04script(tr *lib.Trace, name string, script []string, path string, reopenE
 		var msg string
 		switch {
 		case cmd == "persist":
-			msg = lib.Catch(func() { db.Persist() })
+			msg = lib.Catch(func() { c04bytes(tr, db, db.Persist()) })
 		case strings.HasPrefix(cmd, "!"):
 			msg = lib.Catch(func() {
 				ut := db.NewUpdateTran()
@@ -512,7 +524,7 @@ func c04history(tr *lib.Trace, r *rand.Rand, hno int, path string) {
 		case x < 62: // persist (the clocks of schema and info tick independently)
 			hist = append(hist, "persist")
 			tr.Count("op.persist")
-			if msg := lib.Catch(func() { db.Persist() }); msg != "" {
+			if msg := lib.Catch(func() { c04bytes(tr, db, db.Persist()) }); msg != "" {
 				fail("c04-persist-panic", msg)
 				return
 			}
@@ -606,7 +618,7 @@ func c04reopen(tr *lib.Trace, pdb **db19.Database, path string, hist *[]string,
 	s1, v1, d1, i1 := c04snapshot(db)
 	*hist = append(*hist, "persist+close+reopen")
 	tr.Count("op.reopen")
-	if msg := lib.Catch(func() { db.Persist(); db.Close() }); msg != "" {
+	if msg := lib.Catch(func() { c04bytes(tr, db, db.Persist()); db.Close() }); msg != "" {
 		fail("c04-close-panic", msg)
 		lib.Catch(func() { db.Close() })
 		return false
@@ -690,4 +702,223 @@ func c04reopen(tr *lib.Trace, pdb **db19.Database, path string, hist *[]string,
 		return false
 	}
 	return true
+}
+
+// ---- byte-level tie of the metadata path to the Lean mirrors (Drive/C04.lean):
+// after every persist the 36 bytes of the state record, the newest schema and info chunks (frame
+// and items, read with the real ReadSchema / ReadInfo) and the live items (real Write) are
+// replayed through Gsu.StateRec / Gsu.MetaItem.
+
+var c04seen = map[string]bool{}
+
+func c04q(tr *lib.Trace, kind, in, out string) {
+	if c04seen[in] {
+		tr.Count("bytes.dup." + kind)
+		return
+	}
+	c04seen[in] = true
+	tr.Count("bytes." + kind)
+	tr.Q(in, out)
+}
+
+func c04strs(ss []string) string {
+	var sb strings.Builder
+	fmt.Fprint(&sb, len(ss))
+	for _, s := range ss {
+		sb.WriteString(" " + lib.X(s))
+	}
+	return sb.String()
+}
+
+func c04schemaText(ts *meta.Schema) string {
+	var sb strings.Builder
+	fmt.Fprintf(&sb, "%s %s %s %d", lib.X(ts.Table), c04strs(ts.Columns), c04strs(ts.Derived), len(ts.Indexes))
+	for i := range ts.Indexes {
+		ix := &ts.Indexes[i]
+		best := "-"
+		if ix.BestKey != nil {
+			best = c04strs(ix.BestKey)
+		}
+		fmt.Fprintf(&sb, " %d %s %s %s %d %s", ix.Mode, c04strs(ix.Columns), best,
+			lib.X(ix.Fk.Table), ix.Fk.Mode, c04strs(ix.Fk.Columns))
+	}
+	return sb.String()
+}
+
+// root offset and tree levels of an overlay's btree (the root has no accessor: it is taken from
+// the 6 bytes the real Overlay.Write produces, the levels from BtreeLevels)
+func c04ovText(ti *meta.Info) string {
+	var sb strings.Builder
+	for _, ov := range ti.Indexes {
+		b := make([]byte, 8)
+		ov.Write(stor.NewWriter(b))
+		fmt.Fprintf(&sb, " %d %d", stor.NewReader(b).Get5(), ov.BtreeLevels()-1)
+	}
+	return sb.String()
+}
+
+func c04infoText(ti *meta.Info) string {
+	return fmt.Sprintf("%s %d %d %d%s", lib.X(ti.Table), ti.Nrows, ti.Size, len(ti.Indexes), c04ovText(ti))
+}
+
+// c04chunk replays the newest chunk of a chain: frame, then the items
+func c04chunk(tr *lib.Trace, db *db19.Database, off uint64, schema bool) {
+	if off == 0 {
+		tr.Count("bytes.chain-empty")
+		return
+	}
+	buf := db.Store.Data(off)
+	size := stor.NewReader(buf).Get3()
+	chunk := string(buf[:size])
+	out := "!invalid"
+	var body []byte
+	if size >= 14 && cksum.Check([]byte(chunk)) {
+		r := stor.NewReader([]byte(chunk[3 : size-cksum.Len]))
+		prev := r.Get5()
+		ck := r.Get4()
+		body = []byte(chunk[3+5+4 : size-cksum.Len])
+		out = fmt.Sprintf("%d %d %s", prev, ck, lib.X(string(body)))
+	}
+	c04q(tr, "chunkr", "chunkr "+lib.X(chunk), out)
+	if out == "!invalid" {
+		return
+	}
+	var items []string
+	msg := lib.Catch(func() {
+		r := stor.NewReader(body)
+		for r.Remaining() > 0 {
+			if schema {
+				items = append(items, c04schemaText(meta.ReadSchema(db.Store, r)))
+			} else {
+				items = append(items, c04infoText(meta.ReadInfo(db.Store, r)))
+			}
+		}
+	})
+	out = fmt.Sprintf("%d %s", len(items), strings.Join(items, " ; "))
+	if msg != "" {
+		out = "!short"
+	}
+	if schema {
+		c04q(tr, "schitems", "schitems "+lib.X(string(body)), out)
+	} else {
+		c04q(tr, "infitems", "infitems "+lib.X(string(body)), out)
+	}
+}
+
+func c04bytes(tr *lib.Trace, db *db19.Database, st *db19.DbState) {
+	if c04prefix != "c04" || st == nil {
+		return
+	}
+	off := st.Off
+	if off == 0 {
+		// nothing has changed since CreateDatabase: Persist returns the initial state, no record yet
+		tr.Count("bytes.no-state-record-yet")
+		return
+	}
+	offS, offI := st.Meta.Offsets()
+	rec := string(db.Store.Data(off)[:36])
+	// the real decoder (ReadState = readState + ReadMeta); a metadata checksum mismatch of the
+	// chains (findings 12/45, reported by the reopen oracle) makes it panic: then the time is taken
+	// from the bytes and the decoder is not replayed for this record
+	var rs *db19.DbState
+	msg := lib.Catch(func() { rs = db19.ReadState(db.Store, off) })
+	t := int64(binary.BigEndian.Uint64([]byte(rec[8:])))
+	if msg == "" && rs != nil {
+		t = rs.Asof
+		s2, i2 := rs.Meta.Offsets()
+		c04q(tr, "stdec", fmt.Sprintf("stdec %d %s", off, lib.X(rec)), fmt.Sprintf("%d %d %d", s2, i2, rs.Asof))
+	} else {
+		tr.Count("bytes.readstate-panic")
+	}
+	c04q(tr, "stenc", fmt.Sprintf("stenc %d %d %d", t, offS, offI), lib.X(rec))
+	// the same record (and single byte corruptions of it) placed at a small offset of a heap stor:
+	// invalid because of the offset guard / checksum / magic, valid only when both chains are empty
+	// (ReadState also reads the chains, which are not on the heap: the uncorrupted record is placed
+	// at or below one of its chain offsets unless both are 0)
+	pad := 36 + int(off%1000)
+	if m := int(max(offS, offI)); m > 0 {
+		pad = min(pad, m)
+	}
+	c04heapState(tr, rec, pad, -1)
+	c04heapState(tr, rec, 36+int(off%1000), int((off+uint64(t))%36))
+	c04chunk(tr, db, offS, true)
+	c04chunk(tr, db, offI, false)
+	// the live items through the real writers
+	rt := db.NewReadTran()
+	for _, ts := range rt.GetAllSchema() {
+		in := "schw " + c04schemaText(ts)
+		if !c04seen[in] {
+			wb := make([]byte, ts.StorSize()+8)
+			w := stor.NewWriter(wb)
+			out := "!panic"
+			if lib.Catch(func() { ts.Write(w) }) == "" {
+				if w.Len() != ts.StorSize() {
+					tr.Fail(c04prefix+"-storsize", "Schema.StorSize != bytes written: "+in)
+				}
+				out = lib.X(string(wb[:w.Len()]))
+			}
+			c04q(tr, "schw", in, out)
+			if out != "!panic" {
+				// read back with the real reader, followed by trailing bytes
+				b := append(wb[:w.Len():w.Len()], 0xee, 0xff)
+				r := stor.NewReader(b)
+				var txt string
+				if lib.Catch(func() { txt = c04schemaText(meta.ReadSchema(db.Store, r)) }) == "" {
+					c04q(tr, "schr", "schr "+lib.X(string(b)), txt+" "+lib.X(string(b[len(b)-r.Remaining():])))
+				}
+			}
+		} else {
+			tr.Count("bytes.dup.schw")
+		}
+		if ti := rt.GetInfo(ts.Table); ti != nil {
+			in := fmt.Sprintf("infw %s %d %d %d %d %d%s", lib.X(ti.Table), ti.Nrows, ti.Size,
+				ti.BtreeNrows, ti.BtreeSize, len(ti.Indexes), c04ovText(ti))
+			if !c04seen[in] {
+				wb := make([]byte, ti.StorSize()+8)
+				w := stor.NewWriter(wb)
+				out := "!panic"
+				if lib.Catch(func() { ti.Write(w) }) == "" {
+					if w.Len() != ti.StorSize() {
+						tr.Fail(c04prefix+"-storsize", "Info.StorSize != bytes written: "+in)
+					}
+					out = lib.X(string(wb[:w.Len()]))
+				}
+				c04q(tr, "infw", in, out)
+				if out != "!panic" {
+					b := append(wb[:w.Len():w.Len()], 0xee)
+					r := stor.NewReader(b)
+					var txt string
+					if lib.Catch(func() { txt = c04infoText(meta.ReadInfo(db.Store, r)) }) == "" {
+						c04q(tr, "infr", "infr "+lib.X(string(b)), txt+" "+lib.X(string(b[len(b)-r.Remaining():])))
+					}
+				}
+			} else {
+				tr.Count("bytes.dup.infw")
+			}
+		}
+	}
+}
+
+// c04heapState puts rec (with byte `flip` corrupted, if >= 0) after `pad` bytes of a heap stor and
+// runs the real ReadState on it
+func c04heapState(tr *lib.Trace, rec string, pad int, flip int) {
+	b := []byte(rec)
+	if flip >= 0 {
+		b[flip] ^= byte(1 + (pad+flip)%255)
+	}
+	hs := stor.HeapStor(8192)
+	hs.Alloc(pad)
+	off, buf := hs.Alloc(len(b) + 64) // readState slices [:stateLen] of the data from off
+	copy(buf, b)
+	out := "!invalid"
+	var rs *db19.DbState
+	if msg := lib.Catch(func() { rs = db19.ReadState(hs, off) }); msg == "" && rs != nil {
+		s2, i2 := rs.Meta.Offsets()
+		out = fmt.Sprintf("%d %d %d", s2, i2, rs.Asof)
+	}
+	kind := "stdec-heap"
+	if flip >= 0 {
+		kind = "stdec-corrupt"
+	}
+	c04q(tr, kind+"."+out[:1], fmt.Sprintf("stdec %d %s", off, lib.X(string(b))), out)
 }
